@@ -161,11 +161,7 @@ def JR4(inp, n):
         j.add(cmd if not inp.concrete else Blob.lit(cmd), base + i, 0)
     j.setRaftCommitIndex(cm)
     j.onOneSecondTimer()
-    if inp.concrete:
-        so_mod.pickle = real_pickle
-        J.to_bytes = lambda d: d
-    else:
-        so_mod.pickle = _JPickle
+    so_mod.pickle = _JPickle          # commands come back from the journal image as blobs (literal bytes in replay mode)
     from pvf.blob import symord, symlen
     so_mod.ord, so_mod.len = symord, symlen
     o, tr = _node(inp, so.Clock(now), cls=Acc)
